@@ -25,7 +25,7 @@ func runsAtInstall(hooks []hx.HookSpec) bool {
 }
 
 // config builds the search for one (hook set, initial cluster).
-func config(tier string, hooks []hx.HookSpec, init string, drivers []string) *opspace.Config {
+func config(tier string, hooks []hx.HookSpec, init string, drivers []string, depthCap int) *opspace.Config {
 	thorough := tier == "thorough"
 	c1, c2 := charts(hooks)
 	hookCall := func(label string) string {
@@ -56,6 +56,11 @@ func config(tier string, hooks []hx.HookSpec, init string, drivers []string) *op
 		// operation; later operations meet the objects hooks themselves leave behind
 		maxDepth = 1
 	}
+	if depthCap > 0 && depthCap < maxDepth {
+		maxDepth = depthCap
+	}
+	// uninstall appears in two spellings everywhere: purge, and --keep-history
+	unX, unK := hx.Op{Kind: "uninstall"}, hx.Op{Kind: "uninstall", KeepHistory: true}
 	return &opspace.Config{
 		Property: prop,
 		Drivers:  drivers,
@@ -80,20 +85,20 @@ func config(tier string, hooks []hx.HookSpec, init string, drivers []string) *op
 				// after a failed operation (injected or natural conflict): thorough
 				// looks at the uninstall that cleans up, quick stops
 				if thorough {
-					return []opspace.Step{{Op: hx.Op{Kind: "uninstall"}}}
+					return []opspace.Step{{Op: unX}, {Op: unK}}
 				}
 				return nil
 			}
 			switch last.Op.Kind {
 			case "install":
-				return both(hx.Op{Kind: "upgrade", Chart: c2}, hx.Op{Kind: "uninstall"})
+				return both(hx.Op{Kind: "upgrade", Chart: c2}, unX, unK)
 			case "upgrade":
 				if thorough {
-					return both(hx.Op{Kind: "rollback"}, hx.Op{Kind: "uninstall"})
+					return both(hx.Op{Kind: "rollback"}, unX, unK)
 				}
 				return both(hx.Op{Kind: "rollback"})
 			case "rollback":
-				return both(hx.Op{Kind: "uninstall"})
+				return both(unX, unK)
 			}
 			return nil
 		},
@@ -119,8 +124,12 @@ func run(c *core.Ctx) {
 			continue // --only F1,F2: debugging aid, restricts the run to some families
 		}
 		perFamily[hs.Family]++
-		for _, init := range append([]string{"clean"}, staleInits(hs)...) {
-			config(c.Tier, hs.Hooks, init, drivers).Run(c)
+		inits := []string{"clean"}
+		if !hs.NoStale {
+			inits = append(inits, staleInits(hs)...)
+		}
+		for _, init := range inits {
+			config(c.Tier, hs.Hooks, init, drivers, hs.DepthCap).Run(c)
 		}
 		// opspace takes one unit of work per (driver, init, first step): an even
 		// number per hook set, the heavy one (clean cluster, hooks on) always first.
@@ -129,7 +138,7 @@ func run(c *core.Ctx) {
 		c.NextMine()
 	}
 	var fam []string
-	for _, f := range []string{"F1", "F1b", "F1e", "F2", "F3m", "F3p", "F3o", "F2e"} {
+	for _, f := range []string{"F1", "F1b", "F1e", "F2", "F3m", "F3p", "F3o", "Fw2", "Fw3", "F2e"} {
 		if perFamily[f] > 0 {
 			fam = append(fam, fmt.Sprintf("%s=%d", f, perFamily[f]))
 		}
@@ -137,9 +146,9 @@ func run(c *core.Ctx) {
 	c.Bound("hook_sets", fmt.Sprintf("%d (%s)", len(sets), strings.Join(fam, " ")))
 	c.Bound("hooks_per_set", "<=3")
 	c.Bound("max_depth", "4 operations (1 when the initial cluster holds a stale hook object and every hook is attached to an install event)")
-	c.Bound("initial_clusters", "clean; one stale object per hook; all hooks stale")
-	c.Bound("histories", "install -> {upgrade -> {rollback -> uninstall"+map[bool]string{true: " | uninstall", false: ""}[thorough]+"} | uninstall}; every step also with hooks disabled (terminal)"+
-		map[bool]string{true: "; uninstall after every failed step", false: "; a failed step ends the history"}[thorough])
+	c.Bound("initial_clusters", "clean; one stale object per hook; all hooks stale (Fw2, Fw3: clean only)")
+	c.Bound("histories", "install -> {upgrade -> {rollback -> U"+map[bool]string{true: " | U", false: ""}[thorough]+"} | U}, U = uninstall | uninstall --keep-history; every step also with hooks disabled (terminal)"+
+		map[bool]string{true: "; U after every failed step; Fw3: first two operations only", false: "; a failed step ends the history; Fw3: first operation only"}[thorough])
 	c.Bound("faults", "each hook create request rejected, each hook WatchUntilReady failing; at most one per history")
 	c.Bound("drivers", strings.Join(drivers, ","))
 	c.SetExtra("reading", "a hook whose creation is refused never existed (no policy deletion expected for it); earlier hooks of the event that succeeded are deleted when their policy has hook-succeeded")
@@ -165,6 +174,6 @@ func replay(c *core.Ctx, data json.RawMessage) []core.Violation {
 	if err := json.Unmarshal(data, &rd); err != nil {
 		return nil
 	}
-	config(rd.Tier, hooksOfPath(rd.Path), rd.Init, []string{rd.Driver}).ReplayPath(c, rd.Replay)
+	config(rd.Tier, hooksOfPath(rd.Path), rd.Init, []string{rd.Driver}, 0).ReplayPath(c, rd.Replay)
 	return core.FilterKey(c.TakeViolations(), rd.Key)
 }
